@@ -20,6 +20,7 @@ type WOpts struct {
 	Color  int  `json:"color"`
 	Send   bool `json:"send,omitempty"`   // (send bag :write ...) instead of (bag-write bag ...)
 	Stream bool `json:"stream,omitempty"` // write to a string-output-stream instead of returning a string
+	TimeKW bool `json:"timekw,omitempty"` // time cases: the time setting is given by the :time-format / :time-wrap keywords of the call, the variables are nil while it runs
 }
 
 func (w WOpts) isJSON() bool { return w.JSON == 1 }
@@ -44,10 +45,11 @@ type Op struct {
 	Path    Path   `json:"path"`
 	PStr    string `json:"pstr"`              // the path text given to slip
 	PObj    bool   `json:"pobj,omitempty"`    // pass (make-bag-path pstr) instead of the string
+	PList   int    `json:"plist,omitempty"`   // pass (make-bag-path list): 1 = members as strings, 2 = as symbols (paths of members, indices and wildcards only)
 	NoPath  bool   `json:"nopath,omitempty"`  // call without a path argument (whole document)
 	Send    bool   `json:"send,omitempty"`    // method instead of function
 	Val     *Node  `json:"val,omitempty"`     // set/parse value
-	ValMode string `json:"valmode,omitempty"` // lisp | bag | text
+	ValMode string `json:"valmode,omitempty"` // lisp | bag | text | stream | hash | hash-assoc
 	AsBag   bool   `json:"asbag,omitempty"`   // modify: hand the value to the function as a bag
 }
 
@@ -83,6 +85,8 @@ type Case struct {
 	Texts []HistText `json:"texts,omitempty"`
 	Int   *IntCase   `json:"int,omitempty"`
 	Docs  []*Node    `json:"docs,omitempty"`  // multi: the documents the text holds, in order
+	Alias *AliasCase `json:"alias,omitempty"` // alias: one value reached through two routes
+	Esc   string     `json:"esc,omitempty"`   // text: escape style the text depends on (surrogate)
 	Probe string     `json:"probe,omitempty"` // name of the deterministic probe block the case belongs to
 }
 
@@ -446,7 +450,8 @@ func probeScalars() []probeScalar {
 
 var (
 	pScalars    = probeScalars()
-	textEntries = []string{"make-bag", "make-instance", "bag-parse", "send-parse", "json-parse", "json-parse-strict", "bag-read", "init-read", "make-bag-octets", "load-bag", "each-bag-stream", "each-bag-file", "json-parse-stream"}
+	textEntries = []string{"make-bag", "make-instance", "bag-parse", "send-parse", "json-parse", "json-parse-strict", "bag-read", "init-read", "make-bag-octets", "load-bag", "each-bag-stream", "each-bag-file", "json-parse-stream",
+		"json-parse-strict-stream", "json-parse-octets", "json-parse-strict-octets"}
 )
 
 // text probe i: scalar s (as array element, object value and, for strings,
@@ -787,6 +792,9 @@ func finishOp(r *rand.Rand, op *Op) {
 	op.PStr = op.Path.render(style)
 	op.PObj = r.IntN(4) == 0
 	op.Send = r.IntN(3) == 0
+	if r.IntN(6) == 0 {
+		op.PList = 1 + r.IntN(2)
+	}
 }
 
 func hasEmptyOrSpecial(n *Node) bool {
@@ -795,7 +803,31 @@ func hasEmptyOrSpecial(n *Node) bool {
 	})
 }
 
+// hashMode: a value that is an object may be handed over as a hash-table.
+// avoided (finding "val=hash-table"): false and numbers beyond int64/float64
+// inside a hash-table; every 8th candidate has them anyway.
+func hashMode(r *rand.Rand, v *Node, mode string) string {
+	if v.K != kObj || r.IntN(3) != 0 || v.has(func(x *Node) bool { return x.K == kArr && len(x.A) == 0 }) {
+		return mode // (Lisp has one value for the empty list and nil)
+	}
+	if hashLossy(v) && r.IntN(8) != 0 {
+		return mode
+	}
+	if r.IntN(8) == 0 && hasObject(v.stripRoot()) && !emptyBelowRoot(v) {
+		return "hash-assoc"
+	}
+	return "hash"
+}
+
 func randSetValue(r *rand.Rand, scalarOnly bool, rich bool) (*Node, string) {
+	v, mode := randSetValue0(r, scalarOnly, rich)
+	if v.has(func(x *Node) bool { return x.K == kTime }) && hasEmptyOrSpecial(v) {
+		return v, mode
+	}
+	return v, hashMode(r, v, mode)
+}
+
+func randSetValue0(r *rand.Rand, scalarOnly bool, rich bool) (*Node, string) {
 	p := &profile{nullVal: true, falseVal: true, emptyC: true, times: rich, maxWidth: 3, big: rich, longFloats: rich, minInt: rich, noHuge: true}
 	var v *Node
 	if scalarOnly || r.IntN(3) != 0 {
@@ -1036,23 +1068,28 @@ var goodHistDocs = []*Node{
 	nInt(7),
 }
 
-var histEntries = []string{"make-bag", "make-instance", "bag-parse", "json-parse", "bag-read"}
+var histEntries = []string{"make-bag", "make-instance", "bag-parse", "json-parse", "bag-read", "json-parse-strict", "json-parse-strict-stream", "json-parse-stream", "load-bag"}
+
+func strictEntry(e string) bool {
+	return strings.HasPrefix(e, "json-parse-strict") || strings.HasPrefix(e, "discover-strict")
+}
 
 // goodHistTexts are the valid texts of the probe block: the documents above as
 // compact JSON plus SEN texts mixing bare tokens and quoted strings.
 type histGood struct {
 	text string
 	doc  *Node
+	sen  bool // not JSON: a strict parser must reject it
 }
 
 func goodHist() []histGood {
 	var out []histGood
 	for _, d := range goodHistDocs {
-		out = append(out, histGood{compactJSON(d), d})
+		out = append(out, histGood{compactJSON(d), d, false})
 	}
 	out = append(out,
-		histGood{`[a50 "b c" d]`, nArr(nStr("a50"), nStr("b c"), nStr("d"))},
-		histGood{`{k: v w: "x y"}`, nObj().put("k", nStr("v")).put("w", nStr("x y"))})
+		histGood{`[a50 "b c" d]`, nArr(nStr("a50"), nStr("b c"), nStr("d")), true},
+		histGood{`{k: v w: "x y"}`, nObj().put("k", nStr("v")).put("w", nStr("x y")), true})
 	return out
 }
 
@@ -1072,6 +1109,10 @@ func histProbe(i int) Case {
 	c.Texts = append(c.Texts, HistText{Text: bad, Entry: entry})
 	for j := range pGoodHist {
 		g := pGoodHist[(k+j)%len(pGoodHist)]
+		if g.sen && strictEntry(entry) {
+			c.Texts = append(c.Texts, HistText{Text: g.text, Entry: entry}) // not JSON: to be rejected, and without consequences
+			continue
+		}
 		c.Texts = append(c.Texts, HistText{Text: g.text, Entry: entry, Doc: g.doc})
 	}
 	return c
@@ -1097,7 +1138,10 @@ func genHist(r *rand.Rand, i int) Case {
 			continue
 		}
 		d := randDoc(r, p, 1+r.IntN(3))
-		sen := r.IntN(2) == 0
+		sen := r.IntN(2) == 0 && !strictEntry(entry)
+		if (entry == "json-parse-stream" || entry == "json-parse-strict-stream") && !d.isContainer() {
+			d = nArr(d) // a stream of documents: scalars at the top level are not self-delimiting
+		}
 		c.Texts = append(c.Texts, HistText{Text: renderText(r, d, sen, true), Entry: entry, Doc: d})
 	}
 	return c
@@ -1108,12 +1152,14 @@ func genHist(r *rand.Rand, i int) Case {
 type layout struct {
 	textProbes, nativeProbes, bridgeProbes, pathProbes, histProbes int
 	intProbes, gridProbes, removeProbes, multiProbes, nestedProbes int
+	aliasProbes, hashProbes, edgeProbes, wrapKeyProbes, surrProbes int
 	random                                                         int
 }
 
 func layoutFor(tier string) layout {
 	l := layout{textProbes: nTextProbes(), nativeProbes: nNativeProbes(), bridgeProbes: nBridgeProbes(), pathProbes: nPathProbes(), histProbes: nHistProbes(),
-		intProbes: nIntProbes(), gridProbes: nGridProbes(), removeProbes: nRemoveProbes(), multiProbes: nMultiProbes(), nestedProbes: nNestedProbes()}
+		intProbes: nIntProbes(), gridProbes: nGridProbes(), removeProbes: nRemoveProbes(), multiProbes: nMultiProbes(), nestedProbes: nNestedProbes(),
+		aliasProbes: nAliasProbes(), hashProbes: nHashProbes(), edgeProbes: nEdgeProbes(), wrapKeyProbes: nWrapKeyProbes(), surrProbes: nSurrogateProbes()}
 	l.random = 14000
 	if tier == "thorough" {
 		l.random = 260000
@@ -1123,7 +1169,8 @@ func layoutFor(tier string) layout {
 
 func nCases(tier string) int {
 	l := layoutFor(tier)
-	return l.textProbes + l.nativeProbes + l.bridgeProbes + l.pathProbes + l.histProbes + l.intProbes + l.gridProbes + l.removeProbes + l.multiProbes + l.nestedProbes + l.random
+	return l.textProbes + l.nativeProbes + l.bridgeProbes + l.pathProbes + l.histProbes + l.intProbes + l.gridProbes + l.removeProbes + l.multiProbes + l.nestedProbes +
+		l.aliasProbes + l.hashProbes + l.edgeProbes + l.wrapKeyProbes + l.surrProbes + l.random
 }
 
 func gen(r *rand.Rand, i int, tier string) Case {
@@ -1168,6 +1215,26 @@ func gen(r *rand.Rand, i int, tier string) Case {
 		return nestedProbe(i)
 	}
 	i -= l.nestedProbes
+	if i < l.aliasProbes {
+		return aliasProbe(i)
+	}
+	i -= l.aliasProbes
+	if i < l.hashProbes {
+		return hashProbe(i)
+	}
+	i -= l.hashProbes
+	if i < l.edgeProbes {
+		return edgeProbe(i)
+	}
+	i -= l.edgeProbes
+	if i < l.wrapKeyProbes {
+		return wrapKeyProbe(i)
+	}
+	i -= l.wrapKeyProbes
+	if i < l.surrProbes {
+		return surrogateProbe(i)
+	}
+	i -= l.surrProbes
 	deep := 3
 	if tier == "thorough" {
 		deep = 5
@@ -1190,11 +1257,13 @@ func gen(r *rand.Rand, i int, tier string) Case {
 		}
 		return genBridge(r, i)
 	default:
-		switch (i / 10) % 3 {
+		switch (i / 10) % 4 {
 		case 0:
 			return genHist(r, i)
 		case 1:
 			return genMulti(r, i)
+		case 2:
+			return genAlias(r, i)
 		}
 		return genBridge(r, i)
 	}
@@ -1242,20 +1311,39 @@ func genText(r *rand.Rand, depth int, i int) Case {
 		})
 	}
 	c := Case{Kind: "text", Doc: doc, W: randWOpts(r), Time: tc}
+	if tc != nil {
+		c.W.TimeKW = r.IntN(3) == 0
+	}
 	sen := r.IntN(2) == 0 && !discover
 	c.Fmt = "json"
 	if sen {
 		c.Fmt = "sen"
 	}
 	c.Text = renderTextTime(r, doc, sen, discover, tc)
+	astralKey := func(n *Node) bool {
+		for _, k := range n.Keys {
+			if strings.Contains(strClassesJoined(k), "astral") {
+				return true
+			}
+		}
+		return false
+	}
+	if dirty && tc == nil && r.IntN(2) == 0 && !doc.has(astralKey) && doc.has(func(n *Node) bool { return n.K == kStr && strings.Contains(strClassesJoined(n.S), "astral") }) {
+		// avoided (finding "esc=surrogate"): astral characters in values written
+		// as a surrogate pair of \u escapes
+		w := &renderer{r: r, sen: false, surrogate: true}
+		if w.node(doc); strings.Contains(w.b.String(), `\uD8`) {
+			c.Text, c.Esc, sen, c.Fmt = w.b.String(), "surrogate", false, "json"
+		}
+	}
 	c.Entry = fw.Pick(r, textEntries)
 	if discover {
-		c.Entry = "discover"
+		c.Entry = fw.Pick(r, []string{"discover", "discover-strict", "discover-stream", "discover-strict-stream", "discover-octets"})
 	}
-	if c.Entry == "json-parse-strict" && sen {
-		c.Entry = "json-parse"
+	if strictEntry(c.Entry) && sen {
+		c.Entry = strings.Replace(c.Entry, "-strict", "", 1)
 	}
-	if (c.Entry == "each-bag-stream" || c.Entry == "each-bag-file" || c.Entry == "json-parse-stream") && !doc.isContainer() {
+	if (c.Entry == "each-bag-stream" || c.Entry == "each-bag-file" || c.Entry == "json-parse-stream" || c.Entry == "json-parse-strict-stream") && !doc.isContainer() {
 		// a stream of documents: scalars at the top level are not self-delimiting
 		c.Entry = "load-bag"
 	}
